@@ -20,7 +20,7 @@ RULE_KINDS = {
     "reader-guards/": "finite-exhaustive",        # guard sets of the normalised handler over the complete set of line classes (domain argument checked)
     "stuffing/": "finite-exhaustive", "chunk/": "finite-exhaustive", "chunk/state-reset-per-message": "structural", "terminator/": "finite-exhaustive",
     "stuffing/writer-semantics (bounded)": "bounded", "terminator/emitted-on-own-line (bounded)": "bounded",
-    "client/": "bounded", "filesender/": "bounded", "reader/": "bounded",
+    "client/": "bounded", "filesender/": "bounded", "reader/": "bounded", "do_DATA-eval/": "bounded", "dispatch-eval/": "bounded",
 }
 SMTP = "mail/smtp.py"
 BASIC = "protocols/basic.py"
@@ -32,7 +32,7 @@ EXPLANATION = (
     'er the transform, completion only on the empty-read branch; in the DATA handler every non-terminator path reaches mess'
     'age.lineReceived after de-stuffing and the terminator is not delivered; lineReceived dispatches state_<mode>, state_DA'
     'TA is the handler and never reaches the command interpreter; self.mode writers are an allow-list closed over the intra'
-    '-class call graph; do_DATA arms DATA mode and the per-message state before 354; delimiters agree. FINITE-EXHAUSTIVE (d'
+    '-class call graph; do_DATA (normalised; absence-based verdicts abstain when a helper could not be inlined) arms DATA mode and the per-message state before 354 and leaves it again on every refusal; delimiters agree. FINITE-EXHAUSTIVE (d'
     "omain premise checked on the code): the transformer mentions only '.', CR, LF, rewrites windows of <= 2 source units a"
     "nd carries one flag, so every body over {'.', LF, other}^<=4 under every chunking is a complete domain - no '.' off a "
     "line start doubled, no other byte changed, in-chunk line starts stuffed; a chunk-initial line-start '.' is not (known "
@@ -716,11 +716,28 @@ def _check_dispatch(ctx, env):
         g = ctx.cfg(f)
         line = f.args.args[1].arg
 
+        def is_lookup(x):
+            return (isinstance(x, ast.Call) and call_name(x) == "getattr" and len(x.args) >= 2 and src(x.args[0]) == "self" and "self.mode" in src(x.args[1]))
+        # the handler looked up by mode may be called directly or through a local it was named with first
+        named = {}
+        for st in statements(f):
+            if isinstance(st, ast.Assign) and len(st.targets) == 1 and isinstance(st.targets[0], ast.Name) and is_lookup(st.value):
+                named[st.targets[0].id] = st.value
+        lookup_of = {}
+
         def is_dispatch(x):
-            return (isinstance(x, ast.Call) and isinstance(x.func, ast.Call) and call_name(x.func) == "getattr" and len(x.func.args) >= 2
-                    and src(x.func.args[0]) == "self" and "self.mode" in src(x.func.args[1]))
+            if not isinstance(x, ast.Call):
+                return False
+            if is_lookup(x.func):
+                lookup_of[id(x)] = x.func
+                return True
+            if isinstance(x.func, ast.Name) and x.func.id in named and sum(1 for t in statements(f) for tt in _targets(t) if isinstance(tt, ast.Name) and tt.id == x.func.id) == 1:
+                lookup_of[id(x)] = named[x.func.id]
+                return True
+            return False
         ds = g.find(is_dispatch)
-        ctx.need(ds, f"getattr(self, 'state_' + self.mode)(line) in {q}")
+        if not ds:
+            raise Abstain(f"per-mode dispatch getattr(self, 'state_' + self.mode)(line) not recognised in {q}")
         wit = g.must_pass([g.entry], ds, exc=False)
         ctx.check(wit is None, "dispatch/every-line-by-mode", q, "a received line can bypass the per-mode dispatch", witness=g.describe(wit))
         for d in ds:
@@ -728,7 +745,7 @@ def _check_dispatch(ctx, env):
             ctx.check(len(call.args) == 1 and src(call.args[0]) == line and not any(isinstance(t, ast.Name) and t.id == line for s in statements(f) for t in _targets(s)),
                       "dispatch/every-line-by-mode", ctx.construct(q, call), "the dispatched handler does not receive the line exactly as received")
             try:
-                name = peval(call.func.args[1], {"self.mode": env.get("DATA")})
+                name = peval(lookup_of[id(call)].args[1], {"self.mode": env.get("DATA")})
             except (NotPure, Raised) as ex:
                 raise AnalysisError(f"{q}: handler name expression not evaluable ({ex})")
             ctx.check(env.get("DATA") is not None and name == "state_" + str(env.get("DATA")), "dispatch/data-mode-handler", ctx.construct(q, call) + " | name",
@@ -748,6 +765,29 @@ def _check_dispatch(ctx, env):
                                       for x in ast.walk(rf))
                         ctx.check(not has_cmd, "dispatch/no-command-in-data", f"twisted.mail.smtp.{c2}.{rf.name}",
                                   "the DATA-mode handler reaches the command interpreter: body content can run as an SMTP command")
+
+
+def _eval_dispatch(ctx, menv):
+    """lineReceived evaluated in DATA mode: the line reaches the DATA handler, unchanged, and nothing else."""
+    mod = ctx.mod(SMTP)
+    for cn, f in _definitions(ctx, SERVER_CLASSES, "lineReceived"):
+        q = f"twisted.mail.smtp.{cn}.lineReceived"
+        chain = [ctx.cls(SMTP, "SMTP")] + ([ctx.cls(SMTP, cn)] if cn != "SMTP" else [])
+        for sample in (b"RSET", b".", b"MAIL FROM:<x@y>", b""):
+            got = {"data": [], "command": []}
+            funcs = FollowModule(mod, dict(COMPAT), menv)
+            env = class_env(chain, menv)
+            env.update({"self": object(), "self.mode": menv["DATA"], f.args.args[1].arg: sample, "self.resetTimeout": lambda *a: None,
+                        "self.state_DATA": lambda ln: got["data"].append(ln), "self.state_COMMAND": lambda ln: got["command"].append(ln),
+                        "self.state_AUTH": lambda ln: got["command"].append(ln)})
+            funcs["getattr"] = lambda o, nme, *d, _e=env: _e["self." + nme] if ("self." + nme) in _e else (d[0] if d else (_ for _ in ()).throw(AttributeError(nme)))
+            bind_methods(env, chain, funcs, skip={f.name, "state_DATA", "state_COMMAND", "state_AUTH", "dataLineReceived"})
+            try:
+                eval_block(f.body, env, funcs=funcs)
+            except BlockRaised as ex:
+                raise AnalysisError(f"{q}: not evaluable ({ex})")
+            ctx.check(got == {"data": [sample], "command": []}, "dispatch-eval/data-mode-line-reaches-handler", f"{q} | line {sample!r} in DATA mode",
+                      f"in DATA mode the line {sample!r} is handed to {got!r}: it must reach the DATA handler exactly as received and never the command interpreter")
 
 
 def _check_mode_writers(ctx):
@@ -782,27 +822,85 @@ def _check_mode_writers(ctx):
     ctx.floor("who-may-write/mode", n, 9)
 
 
-def _check_do_data(ctx):
+def _eval_do_data(ctx):
+    """do_DATA (private helpers followed) evaluated with recording stand-ins: when 354 goes out the server is in DATA mode with the
+    message list and a fresh header state in place; a refusing / failing message factory or a missing envelope leaves COMMAND mode
+    and never sends 354."""
+    mod = ctx.mod(SMTP)
+    cls = ctx.cls(SMTP, "SMTP")
     f = ctx.func(SMTP, "SMTP.do_DATA")
+    q = "twisted.mail.smtp.SMTP.do_DATA"
+    menv = module_env(mod)
+
+    def run(scenario):
+        sent = []
+        msg = _Recorder("message")
+
+        def factory():
+            if scenario == "refuses":
+                raise SMTPServerError(552, b"too big")
+            if scenario == "crashes":
+                raise RuntimeError("boom")
+            return msg
+        factory.__name__ = "lam"
+        funcs = FollowModule(mod, dict(COMPAT), menv)
+        env = class_env([cls], menv)
+        env.update({"self": object(), "self.mode": menv["COMMAND"], "self._helo": (None, "h"), "self._from": None if scenario == "no envelope" else "a@b",
+                    "self._to": [] if scenario == "no envelope" else [("u@d", factory)], "self.noisy": False, "self.datafailed": "stale",
+                    "self.__inheader": 1, "self.__inbody": 1, "self.receivedHeader": lambda *a, **kw: b"Received: x", f.args.args[1].arg: b""})
+        env["self.sendCode"] = lambda code, *a, **kw: sent.append((code, env.get("self.mode"), "self.__messages" in env, env.get("self.__inheader"), env.get("self.__inbody")))
+        bind_methods(env, [cls], funcs, skip={f.name})
+        try:
+            r = eval_block(f.body, env, funcs=funcs)
+        except BlockRaised as ex:
+            raise AnalysisError(f"{q}: not evaluable in scenario '{scenario}' ({ex})")
+        if r.raised:
+            raise AnalysisError(f"{q}: raises {r.raised}")
+        return sent, env.get("self.mode")
+    sent, mode = run("accepted")
+    go = [x for x in sent if x[0] == 354]
+    ctx.check(len(go) == 1 and go[0][1:] == (menv["DATA"], True, 0, 0) and mode == menv["DATA"], "do_DATA-eval/armed-when-354-goes-out", q + " | envelope complete, messages created",
+              f"replies {sent!r}, mode afterwards {mode!r}: when 354 is sent the server must already be in DATA mode with the message list and a reset header state in place "
+              "(the client starts sending the body right away)")
+    for scenario in ("refuses", "crashes", "no envelope"):
+        sent, mode = run(scenario)
+        ctx.check(mode == menv["COMMAND"] and not any(x[0] == 354 for x in sent) and bool(sent), "do_DATA-eval/refusal-leaves-command-mode", q + f" | message factory / envelope: {scenario}",
+                  f"replies {[x[0] for x in sent]!r}, mode afterwards {mode!r}: a refused DATA command must answer with an error and stay in COMMAND mode "
+                  "(else the client's next commands are swallowed as body)")
+
+
+def _check_do_data(ctx):
+    f = _norm_method(ctx, SMTP, "SMTP", "do_DATA", keep=("do_DATA", "dataLineReceived", "lineReceived", "sendCode", "_messageHandled", "_disconnect", "lineLengthExceeded"))
     g = ctx.cfg(f)
     q = "twisted.mail.smtp.SMTP.do_DATA"
     go = g.find(lambda x: isinstance(x, ast.Call) and call_name(x) == "self.sendCode" and x.args and isinstance(x.args[0], ast.Constant) and x.args[0].value == 354)
-    ctx.need(go, "self.sendCode(354, ...) in do_DATA")
+    if not go:
+        raise Abstain("self.sendCode(354, ...) not found in the normalised do_DATA")
+    # "fully understood" bit: a private helper that could not be inlined may hold a mode write, so absence-based verdicts abstain
+    opaque = sorted({call_name(c) for c in ast.walk(f) if isinstance(c, ast.Call) and (call_name(c) or "").startswith("self._") and call_name(c) not in ("self._disconnect", "self._messageHandled")})
 
     def assigns(attr, value=None):
         return g.ids(lambda n: n.kind == "stmt" and isinstance(n.ast, ast.Assign) and any(is_self_attr(t, attr) for t in n.ast.targets)
                      and (value is None or src(n.ast.value) == value))
     arm = assigns("mode", "DATA")
+    if not arm and opaque:
+        raise Abstain(f"no `self.mode = DATA` in do_DATA and {opaque[0]} could not be inlined")
     ctx.check(bool(arm), "do_DATA/armed-before-354", q + " | self.mode = DATA", "DATA mode is never entered")
     for attr, nodes, why in (("mode", arm, "the server is still in COMMAND mode when the client is told to send the body: the first body lines are run as commands"),
                              ("__messages", assigns("__messages"), "the message list is not in place when body lines start to arrive"),
                              ("__inheader", assigns("__inheader"), "header-detection state of the previous message leaks into this one"),
                              ("__inbody", assigns("__inbody"), "header-detection state of the previous message leaks into this one")):
         wit = g.must_precede(nodes, go, exc=False)
+        if (not nodes or wit is not None) and opaque:
+            ctx.note(f"do_DATA/armed-before-354: self.{attr} is not visibly set before 354 but {opaque[0]} could not be inlined; clause left to do_DATA-eval/armed-when-354-goes-out")
+            continue
         ctx.check(bool(nodes) and wit is None, "do_DATA/armed-before-354", f"{q} | self.{attr} before 354", why, witness=g.describe(wit))
     disarm = assigns("mode", "COMMAND")
     for a in arm:
         wit = g.must_pass([a], set(go) | set(disarm), to={g.exit}, exc=True)
+        if wit is not None and opaque:
+            ctx.note(f"do_DATA/armed-implies-354: a path without a visible mode reset exists but {opaque[0]} could not be inlined; clause left to do_DATA-eval/refusal-leaves-command-mode")
+            continue
         ctx.check(wit is None, "do_DATA/armed-implies-354", q + " | self.mode = DATA",
                   "do_DATA can return in DATA mode without having sent 354: the client's next commands are swallowed as body",
                   witness=g.describe(wit))
@@ -838,12 +936,16 @@ def check(ctx):
         _struct_filesender(ctx)
     with sect(ctx, "FileSender"):
         _check_filesender(ctx)
-    with sect(ctx, "server dispatch / reader"):
+    with sect(ctx, "server dispatch / reader"), structural(ctx, "dispatch/*", "dispatch-eval/data-mode-line-reaches-handler (bounded)"):
         _check_dispatch(ctx, env)
+    with sect(ctx, "server dispatch evaluated"):
+        _eval_dispatch(ctx, env)
     with sect(ctx, "mode writers"):
         _check_mode_writers(ctx)
-    with sect(ctx, "do_DATA"):
+    with structural(ctx, "do_DATA/*", "do_DATA-eval/* (bounded)"):
         _check_do_data(ctx)
+    with sect(ctx, "do_DATA evaluated"):
+        _eval_do_data(ctx)
 
 
 MUTANTS = [
@@ -880,6 +982,12 @@ MUTANTS = [
     Mutant('regex-stuffing-anchored-at-chunk-start', SMTP, '        chunk = chunk.replace(b"\\n", b"\\r\\n").replace(b"\\r\\n.", b"\\r\\n..")\n', '        chunk = self._lineStartDot.sub(b"..", chunk).replace(b"\\n", b"\\r\\n")\n', more=[(SMTP, '    ## Helpers for FileSender\n    ##\n', '    ## Helpers for FileSender\n    ##\n    _lineStartDot = re.compile(rb"^\\.", re.MULTILINE)\n\n')], expect_rule='stuffing/writer-semantics'),
     Mutant("refused-line-leaves-data-mode", SMTP, "            self.datafailed = e\n            for message in self.__messages:\n                message.connectionLost()\n",
            "            self.datafailed = e\n            self.mode = COMMAND\n            for message in self.__messages:\n                message.connectionLost()\n", expect_rule="reader/terminator"),
+    Mutant("refusal-helper-forgets-mode-reset", SMTP, "                self.sendCode(e.code, e.resp)\n                self.mode = COMMAND\n                self._disconnect(msgs)\n                return\n",
+           "                self._refuse(e.code, e.resp, msgs)\n                return\n",
+           more=[(SMTP, "    def do_DATA(self, rest):\n", "    def _refuse(self, code, resp, msgs):\n        self.sendCode(code, resp)\n        self._disconnect(msgs)\n\n    def do_DATA(self, rest):\n")],
+           expect_rule="do_DATA"),
+    Mutant("dispatch-strips-the-line", SMTP, '        return getattr(self, "state_" + self.mode)(line)\n', '        handler = getattr(self, "state_" + self.mode)\n        return handler(line.strip())\n',
+           expect_rule="dispatch"),
     Mutant("header-state-not-reset", SMTP, "        self.__inheader = self.__inbody = 0\n        self.sendCode(354", "        self.__inbody = 0\n        self.sendCode(354", expect_rule="do_DATA/armed-before-354"),
 ]
 SILENT = [
@@ -894,6 +1002,11 @@ SILENT = [
            more=[(SMTP, "    state_DATA = dataLineReceived\n", "    def _relay(self, line):\n        for message in self.__messages:\n            message.lineReceived(line)\n\n"
                   "    def _leaveDataMode(self):\n        self.mode = COMMAND\n\n    state_DATA = dataLineReceived\n"),
                  (SMTP, "                self.mode = COMMAND\n                if self.datafailed:\n", "                self._leaveDataMode()\n                if self.datafailed:\n")]),
+    Silent("do-data-refusal-helper", SMTP, "                self.sendCode(e.code, e.resp)\n                self.mode = COMMAND\n                self._disconnect(msgs)\n                return\n",
+           "                self._refuse(e.code, e.resp, msgs)\n                return\n",
+           more=[(SMTP, "    def do_DATA(self, rest):\n", "    def _refuse(self, code, resp, msgs):\n        self.sendCode(code, resp)\n        self.mode = COMMAND\n        self._disconnect(msgs)\n\n    def do_DATA(self, rest):\n")]),
+    Silent("dispatch-handler-named-first", SMTP, '        return getattr(self, "state_" + self.mode)(line)\n', '        handler = getattr(self, "state_" + self.mode)\n        return handler(line)\n'),
+    Silent("do-data-precondition-de-morgan", SMTP, "        if self._from is None or (not self._to):\n", "        if not (self._from is not None and self._to):\n"),
     Silent("reader-startswith-and-inverted-test", SMTP, '        if line[:1] == b".":\n            if line == b".":\n', '        if line.startswith(b"."):\n            if not line != b".":\n'),
     Silent('stuff-then-convert', SMTP, '        chunk = chunk.replace(b"\\n", b"\\r\\n").replace(b"\\r\\n.", b"\\r\\n..")\n', '        chunk = chunk.replace(b"\\n.", b"\\n..").replace(b"\\n", b"\\r\\n")\n'),
     Silent("finish-branches-swapped", SMTP, '        if lastsent != b"\\n":\n            line = b"\\r\\n."\n        else:\n            line = b"."\n',
